@@ -12,6 +12,6 @@ INVARIANT CtorLaw
 INVARIANT Unorderable
 CHECK_DEADLOCK FALSE
 CONSTANTS
-  Mutant = "and_continue"
+  Mutant = "required_constant_allowed"
   Depth = 1
   Wide = FALSE
